@@ -564,7 +564,7 @@ fn enabled_steps(w: &World, mgr_up: bool, script: &Option<Script>) -> Vec<(Step,
                 let wgt = if first { 30 } else { 4 };
                 first = false;
                 v.push((Step::Deliver(u), wgt));
-                if scripted {
+                if scripted && script.as_ref().map(|s| s.freeze.is_none()).unwrap_or(true) {
                     break;
                 }
             }
@@ -695,7 +695,6 @@ fn canonical_choice(w: &World, steps: &[(Step, u64)], sc: &Script) -> Option<Ste
         }
         match s {
             Step::Apply(id, _) | Step::Reply(id) => withheld_calls.contains(id),
-            Step::Deliver(u) => sc.freeze.as_ref().map(|f| w.htlcs[*u].hidx == Some(f.hidx)).unwrap_or(false),
             _ => false,
         }
     };
@@ -1130,7 +1129,7 @@ fn resolve_part(shared: &Shared, k: usize, complete: bool, rng: &mut Rng) {
         w.node.parts[k].preimage = pre;
     } else {
         w.node.parts[k].status = PartStatus::Failed;
-        w.node.parts[k].fail_code = Some(*rng.pick(&[202, 203, 204, 209, 203]));
+        w.node.parts[k].fail_code = Some(*rng.pick(&[202, 203, 204, 209, 203, 208]));
     }
     let st = w.node.parts[k].status;
     w.ev(|| format!("PART part[{k}] {hex_} -> {st:?}"));
